@@ -41,9 +41,18 @@ pub fn to_table(v: &Value) -> toml::Table {
     }
 }
 
+thread_local! {
+    /// content already at the destination before write_toml_file runs (a restored store.toml, a launch.toml of an
+    /// earlier build): the written file must not depend on it
+    static PRE: std::cell::RefCell<Option<Vec<u8>>> = const { std::cell::RefCell::new(None) };
+}
+
 fn write_read<T: serde::Serialize + serde::de::DeserializeOwned>(value: &T, dumpf: impl Fn(&T) -> Value) -> Value {
     let dir = tempfile::tempdir().unwrap();
     let path = dir.path().join("out.toml");
+    if let Some(pre) = PRE.with(|p| p.borrow().clone()) {
+        std::fs::write(&path, pre).unwrap();
+    }
     match write_toml_file(value, &path) {
         Ok(()) => {
             let text = std::fs::read(&path).unwrap();
@@ -55,6 +64,7 @@ fn write_read<T: serde::Serialize + serde::de::DeserializeOwned>(value: &T, dump
 }
 
 pub fn run(case: &Value) -> Value {
+    PRE.with(|p| *p.borrow_mut() = if case["pre"].is_null() { None } else { Some(bytes_of(&case["pre"])) });
     let mut out = match case["kind"].as_str().unwrap() {
         "plan" => {
             let mut bld = BuildPlanBuilder::new();
